@@ -86,6 +86,8 @@ class Patched:
             for name in ("SgxQuote", "SgxReportBody", "is_nonempty_hex_string"):
                 setattr(c2, name, c_boundary(getattr(c2, name)))
             c1.is_nonempty_hex_string = c_boundary(c1.is_nonempty_hex_string)
+        from harness.c07 import _NativeBytes
+        c2.bytes = _NativeBytes          # bytes.fromhex of the (concrete) 436-byte messages: natively, not character by character
         self.json = _Json(None)
         c1.json = self.json
         c1.open = lambda path, mode="r": _File()
@@ -97,6 +99,8 @@ class Patched:
         return self
 
     def __exit__(self, *a):
+        if "bytes" in c2.__dict__:
+            del c2.bytes
         c1.json = _ORIG["json"]
         if "open" in c1.__dict__:
             del c1.open
@@ -139,6 +143,13 @@ def usable(cert, root_name):
     return True
 
 
+def _spelling(v, key):
+    """Hex fields may be re-spelt when saved (case, blanks between bytes): the bytes must be the same."""
+    if type(v) is str and key in ("message", "signature", "custom_data", "auth_data", "tweak"):
+        return "".join(v.split()).lower()
+    return v
+
+
 def preserves(doc, saved):
     """Every element the document declares once, with lower-case hex / canonical base64 fields, comes back unchanged
     (in particular: the whole signed message)."""
@@ -154,7 +165,7 @@ def preserves(doc, saved):
         if got is None:
             return False
         for k in ("message", "signature", "custom_data", "auth_data", "signed_by", "tweak", "type"):
-            if k in e and type(e[k]) is str and got.get(k) != e[k]:
+            if k in e and type(e[k]) is str and got.get(k) != e[k] and _spelling(got.get(k), k) != _spelling(e[k], k):
                 return False
     return saved.get("targets") == doc.get("targets") and saved.get("version") == doc.get("version")
 
@@ -197,8 +208,9 @@ def check(doc, verdict, version):
             return False
         _Counter.n = 0
         out2 = cert2.validate_and_get_values("<root of trust>")
-        return [(k, v[0], v[1] if version == 1 else None) for k, v in sorted(out2.items(), key=str)] == \
-            [(k, v[0], v[1] if version == 1 else None) for k, v in sorted(out.items(), key=str)]
+        # same verdicts AND same values (version 1: the message and the tweak the verdict carries)
+        return [(k,) + (tuple(v) if version == 1 else (v[0],)) for k, v in sorted(out2.items(), key=str)] == \
+            [(k,) + (tuple(v) if version == 1 else (v[0],)) for k, v in sorted(out.items(), key=str)]
 
 
 QUOTE_MSG = "00" * 436          # sgx_quote_t (432 bytes) + 4 bytes: longer than the struct on purpose
@@ -520,6 +532,73 @@ def key_not_a_point(i: int, verdict: bool) -> bool:
     doc = {"version": 2, "targets": ["quote"], "elements": [q, e, root]}
     try:
         return check(doc, verdict, 2)
+    except Exception as ex:
+        reraise_control_flow(ex)
+        note("raised", type(ex).__name__, str(ex)[:200])
+        return False
+
+
+# ------------------------------------------------------------------ spelling of hex fields
+
+SPELL = [lambda h: h, lambda h: h.upper(), lambda h: " ".join(h[i:i + 2] for i in range(0, len(h), 2))]
+
+
+@obligation(tier="quick", timeout=120,
+            bounds="version 1 chain whose target carries a tweak; message / signature / tweak each spelt in lower case, upper case or with "
+                   "blanks between the bytes (symbolic); verdict symbolic: load, validate, save, load, validate - same verdicts and the "
+                   "same values (the message and tweak strings a verdict carries)",
+            examples=[(0, dict(a=0, b=0, c=0, verdict=True)), (0, dict(a=1, b=1, c=1, verdict=True)), (0, dict(a=2, b=0, c=2, verdict=True)),
+                      (0, dict(a=0, b=2, c=1, verdict=False))])
+def hex_spelling(a: int, b: int, c: int, verdict: bool) -> bool:
+    """
+    pre: 0 <= a <= 2 and 0 <= b <= 2 and 0 <= c <= 2
+    post: _
+    """
+    e0 = {"name": "device", "signed_by": "root", "message": pick(SPELL, a)("aabbcc"), "signature": pick(SPELL, b)("3000ab"),
+          "tweak": pick(SPELL, c)("ccddee")}
+    e1 = {"name": "attestation", "signed_by": "device", "message": pick(SPELL, c)("aabb"), "signature": "3000",
+          "tweak": pick(SPELL, a)("0a0b")}
+    doc = {"version": 1, "targets": ["attestation", "device"], "elements": [e0, e1]}
+    try:
+        return check(doc, verdict, 1)
+    except Exception as ex:
+        reraise_control_flow(ex)
+        note("raised", type(ex).__name__, str(ex)[:200])
+        return False
+
+
+# ------------------------------------------------------------------ a target that carries the root's name
+
+RN_SIGNERS = ["root", "other", "self", "dangling"]
+
+
+@obligation(tier="quick", parts=2, timeout=240, part_names=["version 1", "version 2"],
+            bounds="two elements, the second NAMED like the root of trust and listed as target (alone or with the first: symbolic); signer "
+                   "of each element symbolic among {root name, the other element, itself, a missing element}; verdict symbolic",
+            examples=[(1, dict(s0=0, s1=3, both=False, verdict=True)), (1, dict(s0=1, s1=1, both=True, verdict=True)),
+                      (0, dict(s0=0, s1=3, both=False, verdict=True)), (1, dict(s0=0, s1=0, both=False, verdict=False))])
+def root_named_target(s0: int, s1: int, both: bool, verdict: bool) -> bool:
+    """
+    pre: 0 <= s0 <= 3 and 0 <= s1 <= 3
+    post: _
+    """
+    version = 1 + part()
+    names = V1_NAMES if version == 1 else V2_NAMES
+    rootn = "root" if version == 1 else "sgx_root"
+    own = [names[0], rootn]
+
+    def signer(i, k):
+        return pick([rootn, own[1 - i], own[i], "nobody"], k)
+    els = []
+    for i, k in ((0, s0), (1, s1)):
+        el = {"message": "aabb", "signature": "3000"} if version == 1 else \
+            {"type": "sgx_quote", "message": QUOTE_MSG, "custom_data": "cc", "signature": "3000"}
+        el["name"] = own[i]
+        el["signed_by"] = signer(i, k)
+        els.append(el)
+    doc = {"version": version, "targets": [own[0], rootn] if both else [rootn], "elements": els}
+    try:
+        return check(doc, verdict, version)
     except Exception as ex:
         reraise_control_flow(ex)
         note("raised", type(ex).__name__, str(ex)[:200])
